@@ -1,8 +1,10 @@
 (* C04 - Register caching is observationally transparent.  Statements only; proofs in
    proofs/P_C04.v.  Model: model/Cache.v ([run on ver y base image vars rej h]: on = true is the
    context built with DefaultCacheStore, on = false the one built with .no_cache() = CacheSink;
-   ver = cur is the code after the two "fix:" commits of this property, pinned the code before).
-   Vocabulary: spec/CacheSpec.v ([Declared], [Inv], [Coh], [sublist]).
+   ver = cur is the code after the three "fix:" commits of this property, pinned the code before).
+   Vocabulary: spec/CacheSpec.v ([Declared], [Inv], [Coh], [sublist]).  [Declared] is the hypothesis as the
+   property text words it: a pInvalidator for every OTHER register whose bytes a register can alter; nothing is
+   asked of a register with respect to its own cache keys.
    A register's length is [len_of r vars]: the immediate <Length>, or the current value of the variable
    node named by <pLength>; cache keys are (node, address, current length).
    The rejection script [rej] lists the (write-access) indices of device writes that fail
@@ -175,20 +177,11 @@ Theorem C04_key_includes_length : forall y s, Inv y s ->
 Proof. exact key_includes_length. Qed.
 Print Assumptions C04_key_includes_length.
 
-(* [Declared] asks a register whose own keys can overlap (one address under two lengths, two selector positions
-   closer than the length) to be its own pInvalidator.  That clause cannot be dropped for the code as it is: under
-   the hypothesis worded as in the property text ([DeclaredOthers]: a pInvalidator for every node that can alter
-   ANOTHER register's bytes, which [Declared] implies) a WriteThrough register with a variable length is not
-   transparent - read 8 bytes, length := 4, write, length := 8, read answers the block cached before the write *)
-Theorem C04_plength_needs_self_invalidator :
-  exists y base image vars rej h, DeclaredOthers y /\
-    outputs (run true cur y base image vars rej h) <> outputs (run false cur y base image vars rej h).
-Proof. exact own_keys_need_self_invalidator. Qed.
-Print Assumptions C04_plength_needs_self_invalidator.
-
-Theorem C04_plength_declared_others : forall y, Declared y -> DeclaredOthers y.
-Proof. exact declared_others. Qed.
-Print Assumptions C04_plength_declared_others.
+(* the hypothesis the theorems needed before the third fix (a register whose own keys can overlap - one address
+   under two lengths, two selector positions closer than the length - is its own pInvalidator) implies [Declared] *)
+Theorem C04_declared_weakened : forall y, DeclaredOwnKeys y -> Declared y.
+Proof. exact declared_weakened. Qed.
+Print Assumptions C04_declared_weakened.
 
 (* The code before the "fix:" commits violates the property. *)
 
@@ -214,3 +207,37 @@ Theorem C04_own_write_visible_refuted :
     fst (m_cached_bytes true n r s1) <> Ok buf.
 Proof. exact own_write_refuted. Qed.
 Print Assumptions C04_own_write_visible_refuted.
+
+(* (c) write_and_cache of a WriteThrough register kept the blocks the register had cached under its other keys.
+   A register with a variable length and NO pInvalidator (none is owed: [DeclaredOthers] = [Declared]): read 8
+   bytes, length := 4, write, length := 8, read answered the block cached before the write - for the pinned code
+   and still after the first two fixes *)
+Theorem C04_transparent_refuted_ownkeys :
+  exists y base image vars rej h, DeclaredOthers y /\
+    outputs (run true pinned y base image vars rej h) <> outputs (run false pinned y base image vars rej h) /\
+    outputs (run true before_fix_own y base image vars rej h) <> outputs (run false before_fix_own y base image vars rej h).
+Proof. exact refuted_ownkeys. Qed.
+Print Assumptions C04_transparent_refuted_ownkeys.
+
+(* ... and without any variable length: a self-overlapping selector bank (read slot 1, write slot 0, read slot 1) *)
+Theorem C04_transparent_refuted_ownkeys_bank :
+  exists y base image vars rej h, DeclaredOthers y /\
+    (forall n r, node_at y n = Some (NReg r) -> exists l, g_len r = LImm l) /\
+    outputs (run true before_fix_own y base image vars rej h) <> outputs (run false before_fix_own y base image vars rej h).
+Proof. exact refuted_ownkeys_bank. Qed.
+Print Assumptions C04_transparent_refuted_ownkeys_bank.
+
+(* the repaired code on the same systems and histories (instances of C04_transparent, spelled out): both are
+   [Declared] without any pInvalidator, the runs agree, the last read sees the write *)
+Theorem C04_ownkeys_repaired_example :
+  Declared ex_plen_noself /\ Declared ex_bank_noself /\
+  outputs (run true cur ex_plen_noself 256 wit_image [8] [] ownkeys_history) =
+    outputs (run false cur ex_plen_noself 256 wit_image [8] [] ownkeys_history) /\
+  outputs (run true cur ex_plen_noself 256 wit_image [8] [] ownkeys_history) =
+    [2; 0; -1; 1; 0; 1; 0; 1; 0; 2; 0; -4278058236] /\
+  outputs (run true cur ex_bank_noself 256 wit_image [0] [] bank_history) =
+    outputs (run false cur ex_bank_noself 256 wit_image [0] [] bank_history) /\
+  outputs (run true cur ex_bank_noself 256 wit_image [0] [] bank_history) =
+    [1; 0; 2; 0; 4294967295; 1; 0; 1; 0; 1; 0; 2; 0; 4294902018].
+Proof. exact ownkeys_repaired. Qed.
+Print Assumptions C04_ownkeys_repaired_example.
